@@ -57,6 +57,7 @@ type c01issThread struct {
 	Newer    bool   `json:"newer,omitempty"`    // ari: storage holds newer renewal info
 	Cb       bool   `json:"cb,omitempty"`       // acct: NewAccountFunc configured
 	Email    string `json:"email,omitempty"`    // acct: account e-mail address
+	Store    int    `json:"store,omitempty"`    // index of the storage this instance uses (cases with several separate storages in one process)
 }
 
 type c01issSeed struct {
@@ -81,9 +82,22 @@ type c01issCase struct {
 	Backend          string            `json:"backend,omitempty"`     // "" in-memory Locker double | "file": the real FileStorage behind the gate
 	// file back-end: the instance that held the turn of thread 0's lock died and left its lock file behind:
 	// "empty" (killed between the O_EXCL create and the write of the timestamp), "stale" (timestamp an hour old),
-	// "fresh" (timestamp of this moment: the waiters take over after the staleness bound of 2 x 5 s)
+	// "fresh" (timestamp of this moment: the waiters take over after the staleness bound of 2 x 5 s),
+	// "empty-fresh" (empty and just modified: given up after the same bound). "empty" and "stale" files are an hour old.
 	CrashLock string `json:"crash_lock,omitempty"`
-	Class     string `json:"class"`
+	// tid -> milliseconds the driver lets pass (once) before it grants the gate the thread is paused at, while
+	// nothing else can run: a slow holder. A waiter must still be waiting afterwards (FileStorage keeps the
+	// lock file fresh beyond the staleness bound).
+	HoldMs map[string]int `json:"hold_ms,omitempty"`
+	// number of separate storages (default 1). Instances on different storages share nothing but the
+	// process: in particular the package-level record of held locks, which is keyed by lock name only.
+	Stores int `json:"stores,omitempty"`
+	// the Locker grants an uncontended lock to a cancelled context (FileStorage does; the in-memory double
+	// on request): a cancel fault at the Lock gate then ends the context while Lock is in progress and the
+	// lock is granted anyway. In the model that is an acquisition followed by a cancellation that takes
+	// effect at the request's next operation, so the label is recorded there.
+	LockIgnoresCtx bool   `json:"lock_ignores_ctx,omitempty"`
+	Class          string `json:"class"`
 }
 
 type c01issStep struct {
@@ -95,23 +109,24 @@ type c01issStep struct {
 }
 
 type c01issObs struct {
-	Cfgs        [][]int      `json:"-"`
-	Init        [][]int      `json:"-"`
-	Steps       []c01issStep `json:"steps"`
-	Results     []int        `json:"results"`
-	Seen        []int        `json:"seen"`
-	Final       [][]int      `json:"final"`
-	RwLeft      int          `json:"rw_left"`
-	LastPresent int          `json:"last_clean_present"`
-	Held        int          `json:"held_locks"`
-	Recorded    int          `json:"recorded_locks"`
-	Issues      int          `json:"issues"`
-	Overlap     bool         `json:"overlap"`
-	SaveFault   bool         `json:"save_fault"`
-	Deadlock    bool         `json:"deadlock"`
-	Sched       []int        `json:"-"`
-	Names       []string     `json:"names"`
-	LockNames   []string     `json:"lock_names"`
+	Cfgs         [][]int      `json:"-"`
+	Init         [][]int      `json:"-"`
+	Steps        []c01issStep `json:"steps"`
+	Results      []int        `json:"results"`
+	Seen         []int        `json:"seen"`
+	Final        [][]int      `json:"final"`
+	RwLeft       int          `json:"rw_left"`
+	LastPresent  int          `json:"last_clean_present"`
+	Held         int          `json:"held_locks"`
+	Recorded     int          `json:"recorded_locks"`
+	AfterCleanup int          `json:"after_cleanup"` // locks still held + still recorded after CleanUpOwnLocks
+	Issues       int          `json:"issues"`
+	Overlap      bool         `json:"overlap"`
+	SaveFault    bool         `json:"save_fault"`
+	Deadlock     bool         `json:"deadlock"`
+	Sched        []int        `json:"-"`
+	Names        []string     `json:"names"`
+	LockNames    []string     `json:"lock_names"`
 }
 
 type c01Intern struct {
@@ -171,12 +186,15 @@ type c01issRT struct {
 	ariCert  certmagic.Certificate
 	acme     *certmagic.ACMEIssuer
 	waited   int
+	heldBack bool
+	pendCanc bool // a cancellation at the Lock gate whose label is recorded at the next operation
 	usedF    map[string]bool
 }
 
 type c01issEnv struct {
 	cs       c01issCase
-	b        c01Backend
+	b        c01Backend   // storage 0 (and the shared log)
+	bs       []c01Backend // all storages
 	ca       *doubles.CA
 	names    c01Intern
 	lockT    c01Intern
@@ -278,7 +296,16 @@ func (e *c01issEnv) seed() error {
 	for i, s := range e.cs.Seeds {
 		ascii := c01ToASCII(s.Name)
 		nm := certmagic.StorageKeys.Safe(ascii)
-		n := e.names.id(nm)
+		put := func(key string, v []byte, init func(n int) []int) {
+			for si, b := range e.bs {
+				b.Put(key, v)
+				pf := ""
+				if si > 0 {
+					pf = strconv.Itoa(si) + "|"
+				}
+				e.obs.Init = append(e.obs.Init, init(e.names.id(pf+nm)))
+			}
+		}
 		nb, na := time.Now().Add(-time.Hour), time.Now().Add(89*24*time.Hour)
 		due := 0
 		if s.Kind == "due" {
@@ -309,20 +336,17 @@ func (e *c01issEnv) seed() error {
 			kid += 100
 		}
 		if putK {
-			e.b.Put(kk, keyPEM)
-			e.obs.Init = append(e.obs.Init, []int{0, n, 0, 0, kid, 0, 0})
+			put(kk, keyPEM, func(n int) []int { return []int{0, n, 0, 0, kid, 0, 0} })
 		}
 		if putC {
-			e.b.Put(kc, chain)
 			ckid := kid
 			if s.Kind == "mismatch" {
 				ckid = kid - 100
 			}
-			e.obs.Init = append(e.obs.Init, []int{0, n, 1, 1, cid, ckid, due})
+			put(kc, chain, func(n int) []int { return []int{0, n, 1, 1, cid, ckid, due} })
 		}
 		if putM {
-			e.b.Put(km, meta)
-			e.obs.Init = append(e.obs.Init, []int{0, n, 2, 2, cid, 0, 0})
+			put(km, meta, func(n int) []int { return []int{0, n, 2, 2, cid, 0, 0} })
 		}
 	}
 	switch e.cs.LastClean {
@@ -334,7 +358,9 @@ func (e *c01issEnv) seed() error {
 			rec = 0
 		}
 		b, _ := json.Marshal(map[string]any{"tls": map[string]any{"timestamp": ts, "instance_id": "seed"}})
-		e.b.Put("last_clean.json", b)
+		for _, bk := range e.bs {
+			bk.Put("last_clean.json", b)
+		}
 		e.obs.Init = append(e.obs.Init, []int{2, 0, 0, 4, rec, 0, 0})
 	}
 	return nil
@@ -349,12 +375,22 @@ func c01B2i(b bool) int {
 
 func (e *c01issEnv) setupThread(i int, sp c01issThread) (*c01issRT, error) {
 	rt := &c01issRT{id: i, spec: sp, inst: "t" + strconv.Itoa(i), usedF: map[string]bool{}}
-	rt.storage = e.b.Handle(rt.inst)
+	if sp.Store < 0 || sp.Store >= len(e.bs) {
+		return nil, fmt.Errorf("thread %d: no storage %d", i, sp.Store)
+	}
+	rt.storage = e.bOf(rt).Handle(rt.inst)
 	iss := &c01issIssuer{e: e, rt: rt}
 	tmpl := certmagic.Config{ReusePrivateKeys: sp.Reuse, DisableStorageCheck: sp.NoChk}
 	tmpl.OnEvent = func(ctx context.Context, event string, data map[string]any) error {
 		_, err := e.b.GetLog().Begin(doubles.Op{Inst: rt.inst, Kind: "Event", Key: event})
 		return err
+	}
+	if sp.Prog == "handshake" {
+		// an on-demand TLS handshake for a name that is not in the cache: decision, load from storage,
+		// obtain (ObtainCertAsync under the handshake's 180 s timeout), load again. ARI refreshes run in
+		// a background goroutine of their own and are switched off here.
+		tmpl.OnDemand = &certmagic.OnDemandConfig{DecisionFunc: func(context.Context, string) error { return nil }}
+		tmpl.DisableARI = true
 	}
 	rt.cfg, rt.cache = doubles.NewConfig(rt.storage, tmpl, certmagic.CacheOptions{}, iss)
 	rt.ctx, rt.cancel = context.WithCancel(context.Background())
@@ -367,6 +403,14 @@ func (e *c01issEnv) setupThread(i int, sp c01issThread) (*c01issRT, error) {
 	case "manage":
 		progCode, flag = 2, 0
 		rt.eff = certmagic.VerifLocksNormalizedName(sp.Name)
+	case "handshake":
+		// In the model this request is the ManageSync program: without faults of its own the operations are
+		// the same (load; obtain: pre-check, lock, re-check, issue, save, unlock; load; cache) -- the retry loop
+		// of ObtainCertAsync and the wildcard look-up (filtered out in the hook) differ only off this path.
+		progCode, flag = 2, 0
+		if a, err := idna.Lookup.ToASCII(strings.TrimSpace(sp.Name)); err == nil {
+			rt.eff = a // getNameFromClientHello
+		}
 	case "clean":
 		progCode, flag = 3, c01B2i(sp.Interval)
 	case "ari":
@@ -412,7 +456,7 @@ func (e *c01issEnv) setupThread(i int, sp c01issThread) (*c01issRT, error) {
 		rt.lockKey = certmagic.VerifLocksAccountRegLockKey(email)
 		reg, key := certmagic.VerifLocksAccountStorageKeys(rt.acme, c09CA.URL, email)
 		nm := "acct:" + email
-		vk = e.names.id(nm)
+		vk = e.names.id(e.pfx(rt) + nm)
 		pk = vk
 		if _, done := e.acctName[nm]; !done {
 			e.acctName[nm] = [2]string{reg, key}
@@ -420,14 +464,14 @@ func (e *c01issEnv) setupThread(i int, sp c01issThread) (*c01issRT, error) {
 			e.acctKeys[key] = [2]int{vk, 0}
 			if kind := e.cs.AcctSeed[email]; kind != "" {
 				regJSON, _ := json.Marshal(acme.Account{Status: "valid", Contact: []string{"mailto:" + email}, Location: c09CA.Base + "/acct/seeded"})
-				e.b.Put(reg, regJSON)
+				e.bOf(rt).Put(reg, regJSON)
 				e.obs.Init = append(e.obs.Init, []int{0, vk, 2, 2, 0, 0, 0})
 				if kind == "full" {
 					_, _, keyPEM, err := e.ca.Leaf(doubles.LeafOpts{Names: []string{"acct.example"}, Serial: 4900})
 					if err != nil {
 						return nil, err
 					}
-					e.b.Put(key, keyPEM)
+					e.bOf(rt).Put(key, keyPEM)
 					e.obs.Init = append(e.obs.Init, []int{0, vk, 0, 0, 0, 0, 0})
 				}
 			}
@@ -450,9 +494,9 @@ func (e *c01issEnv) setupThread(i int, sp c01issThread) (*c01issRT, error) {
 			idata, _ := json.Marshal(acme.Certificate{RenewalInfo: &ri})
 			meta, _ := json.MarshalIndent(certmagic.CertificateResource{SANs: []string{rt.ascii}, IssuerData: idata}, "", "\t")
 			_, _, km := e.siteKeys(certmagic.StorageKeys.Safe(rt.ascii))
-			e.b.Put(km, meta)
+			e.bOf(rt).Put(km, meta)
 		}
-		vk = e.names.id(certmagic.StorageKeys.Safe(cert.Names[0]))
+		vk = e.names.id(e.pfx(rt) + certmagic.StorageKeys.Safe(cert.Names[0]))
 		if sp.Newer {
 			for _, in := range e.obs.Init {
 				if in[0] == 0 && in[1] == vk && in[2] == 2 {
@@ -463,11 +507,11 @@ func (e *c01issEnv) setupThread(i int, sp c01issThread) (*c01issRT, error) {
 		pk = vk
 	default:
 		rt.lockKey = certmagic.VerifLocksIssueLockKey(rt.cfg, rt.eff)
-		pk = e.names.id(certmagic.StorageKeys.Safe(rt.eff))
-		vk = e.names.id(certmagic.StorageKeys.Safe(rt.ascii))
-		idn = e.ids.id("dbl:" + strings.ToLower(rt.ascii))
+		pk = e.names.id(e.pfx(rt) + certmagic.StorageKeys.Safe(rt.eff))
+		vk = e.names.id(e.pfx(rt) + certmagic.StorageKeys.Safe(rt.ascii))
+		idn = e.ids.id(e.pfx(rt) + "dbl:" + strings.ToLower(rt.ascii))
 	}
-	lk = e.lockT.id(e.b.LockID(rt.lockKey))
+	lk = e.lockID(rt, rt.lockKey)
 	e.obs.Cfgs = append(e.obs.Cfgs, []int{progCode, flag, lk, pk, vk, idn, c01B2i(sp.Reuse), c01B2i(!sp.NoChk), c01B2i(sp.Force), c01B2i(sp.IssDue)})
 	return rt, nil
 }
@@ -495,6 +539,10 @@ func (e *c01issEnv) body(rt *c01issRT) (res int) {
 		}
 	case "manage":
 		err = rt.cfg.ManageSync(rt.ctx, []string{sp.Name})
+	case "handshake":
+		hello, closeConn := doubles.Hello(sp.Name)
+		defer closeConn()
+		_, err = rt.cfg.GetCertificateWithContext(rt.ctx, hello)
 	case "clean":
 		opts := certmagic.CleanStorageOptions{Logger: zap.NewNop(), InstanceID: rt.inst, OCSPStaples: true, ExpiredCerts: true, ExpiredCertGracePeriod: time.Hour}
 		if sp.Interval {
@@ -520,6 +568,11 @@ func (e *c01issEnv) hook(op *doubles.Op) error {
 	if err != nil || tid >= len(e.threads) {
 		return nil
 	}
+	if e.threads[tid].spec.Prog == "handshake" && (op.Kind == "Load" && strings.Contains(op.Key, "/wildcard_") || op.Kind == "Event" && op.Key == "tls_get_certificate") {
+		// loadCertFromStorage's second look-up (*.example, never there) and the tls_get_certificate event at
+		// the start of GetCertificate: not part of the model, let through ungated
+		return nil
+	}
 	a := &c01issArrival{tid: tid, op: *op, reply: make(chan int, 1)}
 	e.arrivals <- a
 	f := <-a.reply
@@ -539,7 +592,12 @@ func (e *c01issEnv) hook(op *doubles.Op) error {
 	return nil
 }
 
-func (e *c01issEnv) wait(n int) error {
+var c01ErrHang = errors.New("no arrival within the bound")
+var c01HangSeen bool
+
+func (e *c01issEnv) wait(n int) error { return e.waitT(n, 90*time.Second) }
+
+func (e *c01issEnv) waitT(n int, bound time.Duration) error {
 	for i := 0; i < n; i++ {
 		select {
 		case a := <-e.arrivals:
@@ -550,7 +608,10 @@ func (e *c01issEnv) wait(n int) error {
 			} else {
 				rt.state, rt.gate = c01stGate, a
 			}
-		case <-time.After(90 * time.Second):
+		case <-time.After(bound):
+			if bound < 90*time.Second {
+				return c01ErrHang
+			}
 			return fmt.Errorf("lock-step driver: no arrival within 90 s (states %v)", e.states())
 		}
 	}
@@ -584,7 +645,7 @@ func c01KindOfSuffix(key string) int {
 }
 
 // siteKey parses certificates/dbl/<nm>/<nm>.<ext>
-func (e *c01issEnv) siteKey(key string) (n, kind int, ok bool) {
+func (e *c01issEnv) siteKey(rt *c01issRT, key string) (n, kind int, ok bool) {
 	p := strings.Split(key, "/")
 	if len(p) != 4 || p[0] != "certificates" || p[1] != "dbl" {
 		return 0, 0, false
@@ -597,7 +658,7 @@ func (e *c01issEnv) siteKey(key string) (n, kind int, ok bool) {
 	if base != p[2] {
 		return 0, 0, false
 	}
-	return e.names.id(p[2]), kind, true
+	return e.names.id(e.pfx(rt) + p[2]), kind, true
 }
 
 func (e *c01issEnv) encodeOp(rt *c01issRT, op doubles.Op) ([4]int, string) {
@@ -605,11 +666,11 @@ func (e *c01issEnv) encodeOp(rt *c01issRT, op doubles.Op) ([4]int, string) {
 	desc := op.Kind + " " + op.Key
 	switch op.Kind {
 	case "Lock":
-		return [4]int{6, e.lockT.id(e.b.LockID(op.Key)), 0, 0}, desc
+		return [4]int{6, e.lockID(rt, op.Key), 0, 0}, desc
 	case "LockAcquired":
-		return [4]int{7, e.lockT.id(e.b.LockID(op.Key)), 0, 0}, desc
+		return [4]int{7, e.lockID(rt, op.Key), 0, 0}, desc
 	case "Unlock":
-		return [4]int{8, e.lockT.id(e.b.LockID(op.Key)), 0, 0}, desc
+		return [4]int{8, e.lockID(rt, op.Key), 0, 0}, desc
 	case "Event":
 		ev := map[string]int{"cert_obtaining": 0, "cert_obtained": 1, "cert_failed": 2, "cached_managed_cert": 3, "new_account_func": 4}
 		c, ok := ev[op.Key]
@@ -618,9 +679,9 @@ func (e *c01issEnv) encodeOp(rt *c01issRT, op doubles.Op) ([4]int, string) {
 		}
 		return [4]int{9, c, 0, 0}, desc
 	case "IssueStart":
-		return [4]int{10, e.ids.id(op.Key), 0, 0}, desc
+		return [4]int{10, e.ids.id(e.pfx(rt) + op.Key), 0, 0}, desc
 	case "IssueEnd":
-		return [4]int{11, e.ids.id(op.Key), 0, 0}, desc
+		return [4]int{11, e.ids.id(e.pfx(rt) + op.Key), 0, 0}, desc
 	case "AriGet":
 		return [4]int{12, 0, 0, 0}, desc
 	case "CAReq":
@@ -646,7 +707,7 @@ func (e *c01issEnv) encodeOp(rt *c01issRT, op doubles.Op) ([4]int, string) {
 		if strings.HasPrefix(op.Key, "rw_test_") {
 			return [4]int{code, 1, rt.id, 0}, op.Kind + " rw_test_*"
 		}
-		if n, k, ok := e.siteKey(op.Key); ok && rt.spec.Prog != "clean" {
+		if n, k, ok := e.siteKey(rt, op.Key); ok && rt.spec.Prog != "clean" {
 			return [4]int{code, 0, n, k}, desc
 		}
 		if op.Kind == "Load" && strings.HasPrefix(op.Key, "ocsp/") && rt.spec.Prog != "clean" {
@@ -659,8 +720,8 @@ func (e *c01issEnv) encodeOp(rt *c01issRT, op doubles.Op) ([4]int, string) {
 	return [4]int{99, 0, 0, 0}, desc
 }
 
-func (e *c01issEnv) existsNow(key string) bool {
-	for _, k := range e.b.Keys() {
+func (e *c01issEnv) existsNow(rt *c01issRT, key string) bool {
+	for _, k := range e.bOf(rt).Keys() {
 		if k == key || strings.HasPrefix(k, key+"/") {
 			return true
 		}
@@ -685,11 +746,14 @@ func (e *c01issEnv) faultFor(rt *c01issRT, a *c01issArrival) int {
 			f = v
 		}
 	}
+	if rt.spec.Prog == "handshake" {
+		return c01fNone // see setupThread: modelled without faults of its own
+	}
 	// budget: a retry loop that would never end is cancelled
 	if f == c01fNone && rt.nops >= 70 && a.op.Kind != "Unlock" && !rt.canc {
 		f = c01fCancel
 	}
-	if _, _, ok := e.siteKey(a.op.Key); ok && (a.op.Kind == "Store" || a.op.Kind == "Delete") && !e.cs.AllowSaveFault && rt.spec.Prog != "ari" && rt.spec.Prog != "clean" {
+	if _, _, ok := e.siteKey(rt, a.op.Key); ok && (a.op.Kind == "Store" || a.op.Kind == "Delete") && !e.cs.AllowSaveFault && rt.spec.Prog != "ari" && rt.spec.Prog != "clean" {
 		f = c01fNone
 	}
 	if a.op.Kind == "Unlock" && (f == c01fErr || f == c01fPanic) && !e.cs.AllowUnlockFault {
@@ -698,7 +762,21 @@ func (e *c01issEnv) faultFor(rt *c01issRT, a *c01issArrival) int {
 	return f
 }
 
-func (e *c01issEnv) holdsLock(rt *c01issRT) bool { return e.b.LockOwner(rt.lockKey) == rt.inst }
+func (e *c01issEnv) holdsLock(rt *c01issRT) bool { return e.bOf(rt).LockOwner(rt.lockKey) == rt.inst }
+
+func (e *c01issEnv) bOf(rt *c01issRT) c01Backend { return e.bs[rt.spec.Store] }
+
+// pfx distinguishes the name / lock / identifier classes of separate storages (nothing for storage 0)
+func (e *c01issEnv) pfx(rt *c01issRT) string {
+	if rt.spec.Store == 0 {
+		return ""
+	}
+	return strconv.Itoa(rt.spec.Store) + "|"
+}
+
+func (e *c01issEnv) lockID(rt *c01issRT, name string) int {
+	return e.lockT.id(e.pfx(rt) + e.bOf(rt).LockID(name))
+}
 
 // wouldOverlap: granting rt's pending gate would let an unlocked manage load overlap a save window
 func (e *c01issEnv) wouldOverlap(rt *c01issRT) bool {
@@ -706,20 +784,20 @@ func (e *c01issEnv) wouldOverlap(rt *c01issRT) bool {
 		return false
 	}
 	op := rt.gate.op
-	_, k, ok := e.siteKey(op.Key)
+	_, k, ok := e.siteKey(rt, op.Key)
 	if !ok || k != 0 {
 		return false
 	}
 	if op.Kind == "Store" {
 		for _, o := range e.threads {
-			if o != rt && o.midLoad {
+			if o != rt && o.spec.Store == rt.spec.Store && o.midLoad {
 				return true
 			}
 		}
 	}
-	if op.Kind == "Load" && rt.spec.Prog == "manage" && !e.holdsLock(rt) {
+	if op.Kind == "Load" && (rt.spec.Prog == "manage" || rt.spec.Prog == "handshake") && !e.holdsLock(rt) {
 		for _, o := range e.threads {
-			if o != rt && o.inSave {
+			if o != rt && o.spec.Store == rt.spec.Store && o.inSave {
 				return true
 			}
 		}
@@ -754,6 +832,14 @@ func (e *c01issEnv) pick() *c01issRT {
 	if len(cands) == 0 {
 		if len(pausedC) == 0 {
 			return nil
+		}
+		if ms := e.cs.HoldMs[strconv.Itoa(pausedC[0].id)]; ms > 0 && !pausedC[0].heldBack {
+			// a slow holder: let real time pass while it stays at its gate; if a waiter got through
+			// meanwhile it runs first (the holder is still inside its turn)
+			pausedC[0].heldBack = true
+			time.Sleep(time.Duration(ms) * time.Millisecond)
+			e.drainUnexpected()
+			return e.pick()
 		}
 		pausedC[0].unpaused = true
 		return pausedC[0]
@@ -801,18 +887,19 @@ func (e *c01issEnv) stepThread(rt *c01issRT) error {
 	kind := a.op.Kind
 	exists := false
 	if kind == "Exists" {
-		exists = e.existsNow(a.op.Key)
+		exists = e.existsNow(rt, a.op.Key)
 	}
-	lockHeld := kind == "Lock" && e.b.LockOwner(a.op.Key) != ""
+	lockHeld := kind == "Lock" && e.bOf(rt).LockOwner(a.op.Key) != ""
 	var waiters []*c01issRT
 	if kind == "Unlock" {
 		for _, o := range e.threads {
-			if o.state == c01stBlocked && e.b.LockID(o.waitLock) == e.b.LockID(a.op.Key) {
+			if o.state == c01stBlocked && o.spec.Store == rt.spec.Store && e.bOf(rt).LockID(o.waitLock) == e.bOf(rt).LockID(a.op.Key) {
 				waiters = append(waiters, o)
 			}
 		}
 	}
 	cancBefore := rt.canc
+	grantAnyway := e.cs.LockIgnoresCtx && kind == "Lock" && f == c01fCancel && !lockHeld && !cancBefore
 	if f == c01fCancel {
 		rt.canc = true
 	}
@@ -821,6 +908,9 @@ func (e *c01issEnv) stepThread(rt *c01issRT) error {
 	a.reply <- f
 	expected := 1
 	rt.state = c01stRunning
+	if grantAnyway {
+		expected = 1 // the LockAcquired announcement
+	}
 	if kind == "Lock" && lockHeld && f == c01fNone && !cancBefore {
 		rt.state, rt.waitLock, expected = c01stBlocked, a.op.Key, 0
 	}
@@ -828,7 +918,27 @@ func (e *c01issEnv) stepThread(rt *c01issRT) error {
 	if kind == "Unlock" && (f == c01fNone || f == c01fCancel) && !refused && len(waiters) > 0 {
 		expected++
 	}
-	if err := e.wait(expected); err != nil {
+	hung := false
+	// expected take-over times: at once (stale), 2 s (empty), about 11 s (fresh, empty-fresh). The bounds are
+	// generous (a loaded machine, a wall clock that is stepped); once one request of this process has hung the
+	// remaining cases use short ones.
+	bounds := map[string]time.Duration{"empty": 30 * time.Second, "stale": 30 * time.Second, "fresh": 60 * time.Second, "empty-fresh": 60 * time.Second}
+	if c01HangSeen {
+		bounds = map[string]time.Duration{"empty": 8 * time.Second, "stale": 8 * time.Second, "fresh": 25 * time.Second, "empty-fresh": 25 * time.Second}
+	}
+	if bound, ok := bounds[e.cs.CrashLock]; ok && kind == "Lock" && expected == 1 && f == c01fNone {
+		// the lock file of a dead holder is in the way: the Locker has to take it over within its
+		// staleness rule; if it does not, the request hangs -- cancel it and record that
+		err := e.waitT(1, bound)
+		if err == c01ErrHang {
+			hung, c01HangSeen = true, true
+			rt.cancel()
+			err = e.wait(1)
+		}
+		if err != nil {
+			return err
+		}
+	} else if err := e.wait(expected); err != nil {
 		return err
 	}
 	// outcome
@@ -867,8 +977,28 @@ func (e *c01issEnv) stepThread(rt *c01issRT) error {
 			out = 2
 		}
 	}
-	e.obs.Steps = append(e.obs.Steps, c01issStep{Tid: rt.id, Fault: f, Op: enc, Out: out, Desc: desc})
+	if hung {
+		out = 0 // the Lock call itself was accepted; what failed is the acquisition
+	}
+	fRec := f
+	if grantAnyway {
+		// the context ended while Lock was in progress and the lock was granted all the same
+		fRec, rt.pendCanc = c01fNone, true
+		if lo.Err == "" {
+			out = 0
+		}
+		desc += " [context cancelled at this gate; granted anyway]"
+	} else if rt.pendCanc && kind != "LockAcquired" && fRec == c01fNone {
+		fRec, rt.pendCanc = c01fCancel, false
+	}
+	e.obs.Steps = append(e.obs.Steps, c01issStep{Tid: rt.id, Fault: fRec, Op: enc, Out: out, Desc: desc})
 	e.obs.Sched = append(e.obs.Sched, rt.id)
+	if hung {
+		e.obs.Deadlock = true
+		e.obs.Steps = append(e.obs.Steps, c01issStep{Tid: rt.id, Fault: c01fNone, Op: [4]int{7, e.lockID(rt, a.op.Key), 0, 0}, Out: 2,
+			Desc: "HUNG: the lock file of a dead holder was not taken over within the bound; request cancelled by the driver"})
+		e.obs.Sched = append(e.obs.Sched, rt.id)
+	}
 	e.last = rt.id
 	for _, o := range e.threads {
 		if o != rt && o.state == c01stBlocked {
@@ -879,7 +1009,7 @@ func (e *c01issEnv) stepThread(rt *c01issRT) error {
 		e.obs.Issues++
 	}
 	// save / load windows
-	if _, k, ok := e.siteKey(a.op.Key); ok && rt.spec.Prog != "clean" {
+	if _, k, ok := e.siteKey(rt, a.op.Key); ok && rt.spec.Prog != "clean" {
 		switch kind {
 		case "Store":
 			if out != 0 {
@@ -901,7 +1031,7 @@ func (e *c01issEnv) stepThread(rt *c01issRT) error {
 				rt.inSave = false
 			}
 		case "Load":
-			if rt.spec.Prog == "manage" && !wasHolding {
+			if (rt.spec.Prog == "manage" || rt.spec.Prog == "handshake") && !wasHolding {
 				if k == 0 && out == 0 {
 					rt.midLoad = true
 				}
@@ -916,12 +1046,30 @@ func (e *c01issEnv) stepThread(rt *c01issRT) error {
 	}
 	for _, m := range e.threads {
 		for _, s := range e.threads {
-			if m != s && m.midLoad && s.inSave {
+			if m != s && m.spec.Store == s.spec.Store && m.midLoad && s.inSave {
 				e.obs.Overlap = true
 			}
 		}
 	}
 	return nil
+}
+
+// drainUnexpected: a thread the driver knows to be waiting for a held lock has announced an operation
+// (it got the lock although the holder is alive): record it, the model will refuse the step.
+func (e *c01issEnv) drainUnexpected() {
+	for {
+		select {
+		case a := <-e.arrivals:
+			rt := e.threads[a.tid]
+			if a.done {
+				rt.state, rt.res, rt.gate = c01stDone, a.res, nil
+			} else {
+				rt.state, rt.gate = c01stGate, a
+			}
+		default:
+			return
+		}
+	}
 }
 
 // dueCancelWait: a request whose planned cancellation while waiting for its lock is due
@@ -944,7 +1092,7 @@ func (e *c01issEnv) cancelBlocked(rt *c01issRT) error {
 	if err := e.wait(1); err != nil {
 		return err
 	}
-	e.obs.Steps = append(e.obs.Steps, c01issStep{Tid: rt.id, Fault: c01fCancel, Op: [4]int{7, e.lockT.id(e.b.LockID(rt.waitLock)), 0, 0}, Out: 2, Desc: "cancelled while waiting for " + rt.waitLock})
+	e.obs.Steps = append(e.obs.Steps, c01issStep{Tid: rt.id, Fault: c01fCancel, Op: [4]int{7, e.lockID(rt, rt.waitLock), 0, 0}, Out: 2, Desc: "cancelled while waiting for " + rt.waitLock})
 	e.obs.Sched = append(e.obs.Sched, rt.id)
 	return nil
 }
@@ -955,20 +1103,34 @@ var c01issRetryOnce sync.Once
 func c01RunIssCase(cs c01issCase) (*c01issObs, error) {
 	c01issCAOnce.Do(func() { c01issCA = doubles.NewCA("issuance harness CA") })
 	c01issRetryOnce.Do(func() { certmagic.VerifLocksSetRetryIntervals([]time.Duration{3 * time.Millisecond}) })
-	var be c01Backend
-	if cs.Backend == "file" {
-		fb, err := c01NewFileBackend()
-		if err != nil {
-			return nil, err
+	var bs []c01Backend
+	var sharedLog *doubles.Log
+	for si := 0; si < cs.Stores || si == 0; si++ {
+		var be c01Backend
+		if cs.Backend == "file" {
+			fb, err := c01NewFileBackend()
+			if err != nil {
+				return nil, err
+			}
+			if sharedLog != nil {
+				fb.log = sharedLog // one log, one gate for all storages
+			}
+			fb.lockIgnoresCtx = cs.LockIgnoresCtx
+			be = fb
+		} else {
+			mb := doubles.NewMemBackend()
+			mb.HonourCtx = true
+			if sharedLog != nil {
+				mb.Log = sharedLog
+			}
+			lic := cs.LockIgnoresCtx
+			be = c01MemBackend{mb, &lic}
 		}
-		be = fb
-	} else {
-		mb := doubles.NewMemBackend()
-		mb.HonourCtx = true
-		be = c01MemBackend{mb}
+		sharedLog = be.GetLog()
+		defer be.Close()
+		bs = append(bs, be)
 	}
-	defer be.Close()
-	e := &c01issEnv{cs: cs, b: be, ca: c01issCA, arrivals: make(chan *c01issArrival, 64), rnd: rand.New(rand.NewSource(cs.SchedSeed)),
+	e := &c01issEnv{cs: cs, b: bs[0], bs: bs, ca: c01issCA, arrivals: make(chan *c01issArrival, 64), rnd: rand.New(rand.NewSource(cs.SchedSeed)),
 		acctKeys: map[string][2]int{}, acctName: map[string][2]string{}}
 	if err := e.seed(); err != nil {
 		return nil, err
@@ -1051,7 +1213,7 @@ func c01RunIssCase(cs c01issCase) (*c01issObs, error) {
 	for _, rt := range e.threads {
 		o.Results = append(o.Results, rt.res)
 		seen := -1
-		if rt.spec.Prog == "manage" {
+		if rt.spec.Prog == "manage" || rt.spec.Prog == "handshake" {
 			certs := rt.cache.AllMatchingCertificates(strings.ToLower(rt.ascii))
 			if len(certs) > 0 && certs[0].Leaf != nil {
 				seen = c01SerialToCid(certs[0].Leaf.SerialNumber.Int64())
@@ -1060,13 +1222,19 @@ func c01RunIssCase(cs c01issCase) (*c01issObs, error) {
 		o.Seen = append(o.Seen, seen)
 	}
 	for n, nm := range e.names.l {
+		bk := e.b
+		if i := strings.Index(nm, "|"); i > 0 { // "<storage>|<name>"
+			if si, err := strconv.Atoi(nm[:i]); err == nil && si < len(e.bs) {
+				bk, nm = e.bs[si], nm[i+1:]
+			}
+		}
 		kk, kc, km := e.siteKeys(nm)
 		if ak, ok := e.acctName[nm]; ok {
 			km, kk = ak[0], ak[1]
 		}
-		kb, hk := e.b.Get(kk)
-		cb, hc := e.b.Get(kc)
-		_, hm := e.b.Get(km)
+		kb, hk := bk.Get(kk)
+		cb, hc := bk.Get(kc)
+		_, hm := bk.Get(km)
 		match, cid := 0, 0
 		if hc {
 			if blk, _ := pem.Decode(cb); blk != nil {
@@ -1082,16 +1250,31 @@ func c01RunIssCase(cs c01issCase) (*c01issObs, error) {
 		}
 		o.Final = append(o.Final, []int{n, c01B2i(hk), c01B2i(hc), c01B2i(hm), match, cid})
 	}
-	for _, k := range e.b.Keys() {
-		if strings.HasPrefix(k, "rw_test_") {
-			o.RwLeft++
+	heldAll := func() int {
+		n := 0
+		for _, bk := range e.bs {
+			n += len(bk.HeldLocks())
 		}
-		if k == "last_clean.json" {
-			o.LastPresent = 1
+		return n
+	}
+	for _, bk := range e.bs {
+		for _, k := range bk.Keys() {
+			if strings.HasPrefix(k, "rw_test_") {
+				o.RwLeft++
+			}
+			if k == "last_clean.json" {
+				o.LastPresent = 1
+			}
 		}
 	}
-	o.Held = len(e.b.HeldLocks())
+	o.Held = heldAll()
 	o.Recorded = certmagic.VerifLocksHeldCount()
+	if o.Held > 0 || o.Recorded > 0 {
+		// what a process does at exit: everything that is still held must be in the record and get released
+		e.b.GetLog().SetHook(nil)
+		certmagic.CleanUpOwnLocks(context.Background(), zap.NewNop())
+		o.AfterCleanup = heldAll() + certmagic.VerifLocksHeldCount()
+	}
 	o.Names = e.names.l
 	o.LockNames = e.lockT.l
 	return o, nil
@@ -1142,7 +1325,7 @@ func c01issWire(mode int, o *c01issObs) string {
 			enc.Int(v)
 		}
 	}
-	enc.Int(o.RwLeft).Int(o.LastPresent).Int(o.Held).Int(o.Recorded).Int(c01B2i(o.Deadlock))
+	enc.Int(o.RwLeft).Int(o.LastPresent).Int(o.Held).Int(o.Recorded).Int(c01B2i(o.Deadlock)).Int(o.AfterCleanup)
 	return enc.String()
 }
 
